@@ -103,3 +103,10 @@ check_C08() {
   build_proxy
   wire_part wire hostile
 }
+
+check_C09() {
+  build_inpkg fixture_verif_test.go c09_stress_verif_test.go
+  inpkg_test inpkg TestVerifC09
+  build_proxy
+  wire_part wire stress
+}
